@@ -232,3 +232,4 @@ Example C18_ttx_fault_example :
   tf_reads (tf_of [1;2;3;4;5;6;7]%N (SFail 5) [1;0;2]%nat true) [3;3;3]%nat =
   Some [([1;2;3]%N, None); ([4;5]%N, Some TfFault); ([], Some TfFault)].
 Proof. reflexivity. Qed.
+Print Assumptions C18_ttx_fault_example.
